@@ -57,7 +57,7 @@ def make_default(rng, i):
     kw = {}
     spec = {'name': nm, 'check_str': check, 'removal': False, 'since': 'None', 'reason_text': None, 'deprecated': None}
     if kind == 'removal':
-        kw.update(deprecated_for_removal=True, deprecated_reason=text(rng) or 'gone', deprecated_since=rng.choice(['N', '2024.1', 'v 1']))
+        kw.update(deprecated_for_removal=True, deprecated_reason=rng.choice([text(rng) or 'gone', text(rng) or 'gone', text(rng) or 'gone', '']), deprecated_since=rng.choice(['N', '2024.1', 'v 1']))
         spec.update(removal=True, since=kw['deprecated_since'], reason_text=kw['deprecated_reason'])
     elif kind in ('renamed', 'changed'):
         old_name = ('old%d:%s' % (i, name(rng))) if kind == 'renamed' else nm
